@@ -58,7 +58,9 @@ def run(ctx):
         if len(ts) == 1:
             a = ts[0]["args"]
             idx = []
+            lets_st = hir.let_env(ft["body"])          # subject / predicate may be formatted into named temporaries first
             for x in (a[2], a[4]):
+                x = hir.through_lets(x, lets_st)
                 ii = [n for n in hir.walk(x) if n.get("k") == "Index"]
                 idx.append(strip(ii[0]["idx"])["lit"]["v"] if ii and strip(ii[0]["idx"])["k"] == "Lit" else None)
             # the copula text is the value of _feature_string(term) (directly or through a named temporary)
